@@ -10,6 +10,7 @@ package main
 //
 //	parent    the scope installed is <current scope>.New(): the receiver of New is the evaluator's scope field as
 //	          it stood on entry (possibly through an assertion to the concrete type)
+//	back      at every return after the install the scope field holds what it held on entry again
 //	bindings  every Set on the installed scope that precedes the evaluation of the body has an identifier of the
 //	          function's parameter list as its key
 
@@ -98,7 +99,7 @@ func callScopeRuleSSA(r *Run, rule string) {
 		st, ok := pt.Elem().Underlying().(*types.Struct)
 		return ok && fa.Field < st.NumFields() && st.Field(fa.Field).Name() == "Value"
 	}
-	nParent, nBind, nBody := 0, 0, 0
+	nParent, nBind, nBody, nBack := 0, 0, 0, 0
 	bad := map[string]token.Pos{}
 	for _, p := range pw.paths {
 		install, body := -1, -1
@@ -109,6 +110,27 @@ func callScopeRuleSSA(r *Run, rule string) {
 			}
 			if c, ok := ev.(*ssa.Call); ok && c.Call.StaticCallee() == blockEval && body < 0 {
 				body = i
+			}
+		}
+		// back in the caller's scope at every exit, whatever the body yielded: the caller's later arguments are
+		// evaluated "in the caller's scope" only if the call that came before them has left its own
+		if install >= 0 && p.end == "return" {
+			last := install
+			for i := install + 1; i < len(p.events); i++ {
+				if st, ok := p.events[i].(*ssa.Store); ok && isCtxAddr(p.resolve(st.Addr)) {
+					last = i
+				}
+			}
+			back := false
+			if last > install {
+				if ld, isLoad := strip(p, p.events[last].(*ssa.Store).Val, 0).(*ssa.UnOp); isLoad && ld.Op == token.MUL && isCtxAddr(p.resolve(ld.X)) && p.loadAt[ld] <= install {
+					back = true
+				}
+			}
+			if back {
+				nBack++
+			} else {
+				bad["on some exit of the call (an error in the body, say) the caller's scope is not put back: the caller goes on in the scope of the finished call, where its later arguments and lets see the parameters"] = origInstr(p.events[last]).Pos()
 			}
 		}
 		if body < 0 {
@@ -175,7 +197,7 @@ func callScopeRuleSSA(r *Run, rule string) {
 		for what, at := range bad {
 			r.Bad(rule, name, "scope of a call", w.Pos(at), what)
 		}
-	case nBody == 0 || nParent == 0:
+	case nBody == 0 || nParent == 0 || nBack == 0:
 		r.Lost(rule, "a path of the user-function call evaluator that installs a scope and runs the body")
 	default:
 		r.Ok(rule, name, "scope of a call", w.Pos(uf.Decl.Pos()), fmt.Sprintf("%d path(s) reach the body: the scope installed is New() of the scope current on entry; %d Set(s) before the body, all of parameter names", nBody, nBind))
